@@ -226,6 +226,8 @@ class Parser:
             self.next(); return ('ptuple', ps)
         if x[0] in ('num', 'byte'):
             self.next(); return ('plit', x[1])
+        if x[0] == 'str':
+            self.next(); return ('pstr', unesc(x[1]))
         if x[0] == 'id':
             if x[1] == '_': self.next(); return ('pwild',)
             if x[1] in ('mut', 'ref'):
@@ -408,6 +410,13 @@ class Parser:
             if v == 'loop': raise Unsupported("loop")
             if v in ('move', 'async', 'let'): raise Unsupported(v)
             path = self.path_segments()
+            if self.atop('!') and path == ['vec'] and self.atop('[', 1):
+                self.next(); self.next(); es = []
+                while not self.atop(']'):
+                    es.append(self.expr())
+                    if self.atop(';'): raise Unsupported("vec![x; n]")
+                    if self.atop(','): self.next()
+                self.next(); return ('veclit', es)
             if self.atop('!'): raise Unsupported("macro " + '::'.join(path) + "!")
             if self.atop('{') and not nostruct and path[-1][0].isupper():
                 self.next(); fields = []
